@@ -102,6 +102,9 @@ func scanAttrs(doc []byte, i, gt int, htmlSpace bool) []mAttr {
 			a.key = string(doc[a.ks:a.ke])
 			out = append(out, a)
 		}
+		if i == a.ks {
+			i++ // a stray '>' (or any rune no rule consumed) inside the tag: always make progress
+		}
 		skip()
 	}
 	return out
